@@ -126,7 +126,7 @@ def deep_agree(f, m, out, where, idxs=None):
             p = f.pack_len(l)
             if p != bytes(m.be_bytes(l)):
                 out.append(("C05:pack_len", "%s: pack_len(%d)=%r model %r" % (where, l, p, bytes(m.be_bytes(l)))))
-            if type(f)(w, p) != f:
+            if (type(f)(p) if isinstance(f, frame.BackwardFrame) else type(f)(w, p)) != f:
                 out.append(("C05:reconstruct", "%s: Frame(w, pack_len(%d)) != f" % (where, l)))
         # a byte string too short for the *value* must raise OverflowError
         need = (n.bit_length() + 7) // 8
@@ -297,6 +297,8 @@ def ops_strategy():
         st.tuples(st.just("setslice"), sel, sel, sel, val),
         st.tuples(st.just("setslice_top"), sel, sel, val),
         st.tuples(st.just("add"), sel, sel),
+        st.tuples(st.just("iadd"), sel, sel),
+        st.tuples(st.just("newback"), st.sampled_from(["int", "bytes", "list"]), st.booleans(), val),
         st.tuples(st.just("bad_index"), sel, st.sampled_from(["getbit", "setbit", "getslice", "setslice"]),
                   st.sampled_from(["-1", "w", "w+k", "-k"]), sel),
         st.tuples(st.just("bad_step"), sel, sel, st.sampled_from([2, -1, 0, 3])),
@@ -304,7 +306,10 @@ def ops_strategy():
         st.tuples(st.just("bad_value"), sel, sel, sel, st.sampled_from(["over", "neg", "type"]),
                   st.integers(0, len(BAD_VALUES) - 1)),
         st.tuples(st.just("bad_new"), st.sampled_from(["bits0", "bits-1", "bitsfloat", "bitsstr", "bitsnone",
-                                                       "dataneg", "dataover", "bytesover"]), width),
+                                                       "dataneg", "dataover", "bytesover"]), width,
+                  st.sampled_from(["Frame", "ForwardFrame"])),
+        st.tuples(st.just("bad_newback"), st.sampled_from(["neg1", "neg", "over", "over2", "bytes2", "bytes0", "float",
+                                                           "str", "none"]), sel, st.booleans()),
         st.tuples(st.just("bad_add"), sel, st.integers(0, len(NON_FRAMES) - 1)),
         st.tuples(st.just("observe"), sel),
     )
@@ -337,7 +342,7 @@ def _interp(ops):
         op = list(op)
         kind = op[0]
         where = "step %d %r" % (step, op)
-        if not pool and kind not in ("new", "newbytes", "bad_new"):
+        if not pool and kind not in ("new", "newbytes", "bad_new", "newback", "bad_newback"):
             kind, op = "new", ["new", 8, 0xA5]
         try:
             if kind in ("new", "newbytes"):
@@ -395,6 +400,42 @@ def _interp(ops):
                         quick_agree(g, mg, out, where)
                         quick_agree(f1, m1, out, where + " (left operand)")
                         quick_agree(f2, m2, out, where + " (right operand)")
+            elif kind == "iadd":
+                # "g = f1; g += f2": g is the concatenation, and the object f1 still names is unchanged
+                f1, m1, _ = pick(op[1])
+                f2, m2, _ = pick(op[2])
+                if m1.w + m2.w <= 512:
+                    g = f1
+                    g += f2
+                    mg = M(m2.bits + m1.bits)
+                    if not isinstance(g, frame.Frame):
+                        out.append(("C05:add-type", "%s: result %r" % (where, type(g))))
+                    else:
+                        quick_agree(g, mg, out, where + " (result of +=)")
+                        quick_agree(f1, m1, out, where + " (object on the left of +=, still referenced elsewhere)")
+                        if f2 is not f1:
+                            quick_agree(f2, m2, out, where + " (right operand)")
+                        if g is not f1:
+                            pool.append((g, mg, True))
+            elif kind == "newback":
+                n = _val(op[3], 8)
+                cls = frame.BackwardFrameError if op[2] else frame.BackwardFrame
+                data = n if op[1] == "int" else bytes([n]) if op[1] == "bytes" else [n]
+                f = cls(data)
+                m = M.from_int(8, n)
+                pool.append((f, m, False))
+                quick_agree(f, m, out, where)
+                if f.error != bool(op[2]):
+                    out.append(("C05:backward-frame-error-flag", "%s: error=%r" % (where, f.error)))
+            elif kind == "bad_newback":
+                k = 1 + op[2] % 300
+                data = {"neg1": -1, "neg": -k, "over": 256, "over2": 256 + k, "bytes2": bytes([1 + k % 255, 1]),
+                        "bytes0": b"", "float": 1.5, "str": "1", "none": None}[op[1]]
+                cls = frame.BackwardFrameError if op[3] else frame.BackwardFrame
+                if op[1] == "bytes0":
+                    pass        # an empty sequence as "no data": not stated either way
+                else:
+                    expect_raise(lambda: cls(data), FAMILY, None, None, out, where, "constructor-backward-" + op[1])
             elif kind == "bad_index":
                 f, m, _ = pick(op[1])
                 w = m.w
@@ -461,7 +502,8 @@ def _interp(ops):
                     "bitsnone": (None, 0), "dataneg": (w, -1), "dataover": (w, 1 << w),
                     "bytesover": (w, bytes([0xFF] * ((w + 7) // 8 + 1))),
                 }[what]
-                expect_raise(lambda: frame.Frame(*args), FAMILY, None, None, out, where, "constructor-" + what)
+                cls = getattr(frame, op[3]) if len(op) > 3 else frame.Frame
+                expect_raise(lambda: cls(*args), FAMILY, None, None, out, where, "constructor-" + what)
             elif kind == "bad_add":
                 f, m, _ = pick(op[1])
                 other = NON_FRAMES[op[2]]
